@@ -45,7 +45,8 @@ theorem guarded_refuses :
     ((⟨100, 100, 104⟩ : Sink).writeWith true true .gt 1000 zero [1, 2, 3, 4, 5, 6]).2.2 = .overflow ∧
       ((⟨100, 100, 104⟩ : Sink).writeWith true true .gt 1000 zero [1, 2, 3, 4, 5, 6]).2.1 104 = 0 := by decide
 
-/-- the size estimate of the observed 400-column batch: allocation 28 896 + 4 096 = 32 992 bytes, stream 51 384 bytes -/
-theorem observed_overshoot : estimate 28896 = 32992 ∧ ¬ (22480 + 28896 + ipcEosLen ≤ estimate 28896) := by decide
+/-- the observed 400-column batch (3 rows of int64): allocation 28 896 + 4 096 = 32 992 bytes; stream =
+    schema message 22 480 + record batch 28 896 + EOS 8 = 51 384 bytes -/
+theorem observed_overshoot : 28896 + 4096 = 32992 ∧ ¬ (22480 + 28896 + 8 ≤ 32992) := by decide
 
 end VgiVerif.C28.Findings
